@@ -733,6 +733,17 @@ func checkParseErrorPos(text []byte, full *lexScan, res *core.RunResult) {
 			}
 		}
 		kind = "found"
+		// the known STRING/BADSTRING defect (position of the rune before the quote) seen through a
+		// parse error whose tokenisation (regex context) differs from Scanner.Scan
+		if off >= 0 && off < len(text) {
+			_, sz := utf8.DecodeRune(text[off:])
+			if text[off] == '\r' && off+1 < len(text) && text[off+1] == '\n' {
+				sz = 2
+			}
+			if nx := off + sz; nx < len(text) && (text[nx] == '\'' || text[nx] == '"') {
+				kind = "rune-before-quote"
+			}
+		}
 	default:
 		// message-only errors (bad regex, unparsable number, duplicate option ...): the position must
 		// at least be the first character of some character of the text that starts a token in the
